@@ -18,11 +18,14 @@ Fixpoint dget (k : bytes) (d : dict) : option Z :=
   end.
 Definition default0 (o : option Z) : Z := match o with Some v => v | None => 0 end.
 
-(*  for line in f: fields = line.split(); mems[fields[0]] = int(fields[1]) * 1024
-   [lenient] = false is the code as it is now: a line with fewer than two fields raises
-   IndexError, a non-numeric second field raises ValueError (RHS is evaluated first).
-   [lenient] = true is the code with notes/fixes/C08-meminfo-legacy-header.diff applied
-   (try: ... except (IndexError, ValueError): continue). *)
+(*  for line in f:
+       fields = line.split()
+       try: mems[fields[0]] = int(fields[1]) * 1024
+       except (IndexError, ValueError): continue
+   [lenient] = true is the code as it is now (commit db3d5fc): a line with fewer than two fields
+   or a non-numeric second field is skipped.  [lenient] = false is the code before that repair
+   (no try/except: IndexError / ValueError escape; RHS is evaluated first); it is kept
+   expressible for the refuted theorems, like C14's [strict]. *)
 Definition mem_step (lenient : bool) (d : dict) (line : bytes) : outcome dict :=
   let fields := split_ws line in
   match nth_error fields 1 with
@@ -210,7 +213,7 @@ Definition virtual_memory_gen (lenient : bool) (pagesize : Z) (meminfo : bytes) 
   do d <- parse_meminfo lenient meminfo;
   vm_of_dict pagesize d zoneinfo.
 (* the code as it is now *)
-Definition virtual_memory := virtual_memory_gen false.
+Definition virtual_memory := virtual_memory_gen true.
 
 (* ------------------------------------------------ swap_memory()
    mul = PAGESIZE (see vm_field);
@@ -264,7 +267,7 @@ Definition swap_memory_gen (lenient : bool) (mul : Z) (meminfo : bytes) (sysinfo
         {| s_total := total; s_used := used; s_free := free; s_percent10 := percent;
            s_sin := 0; s_sout := 0; s_warned := true |}
       end.
-Definition swap_memory := swap_memory_gen false.
+Definition swap_memory := swap_memory_gen true.
 
 (* ------------------------------------------------ psutil/__init__.py: _TOTAL_PHYMEM
    virtual_memory():  ret = _psplatform.virtual_memory(); _TOTAL_PHYMEM = ret.total; return ret
